@@ -192,8 +192,15 @@ class XLine:
         return z3.BoolVal(False) if self.is_data else z3.Not(self.hash)
 
     def startswith(self, prefix, *a):
-        if a or not isinstance(prefix, str):
-            raise Unsupported("startswith with a tuple / offsets")
+        if a:
+            raise Unsupported("startswith with offsets")
+        if isinstance(prefix, tuple):        # str.startswith(tuple): any of them
+            for p_ in prefix:
+                if bool(self.startswith(p_)):
+                    return True
+            return False
+        if not isinstance(prefix, str):
+            raise Unsupported("startswith with a non-string")
         if prefix == "":
             return True
         if prefix == "#":
@@ -348,12 +355,22 @@ def run_xvg(shape):
 
     def body():
         fs = {path_name: mklines()}
+        # another energy file of the same process (other header, other legends) is read first, by another reader object
+        nd = (nl + 1) % 3
+        fs["decoy.xvg"] = [XLine(1000 + j, z3.BoolVal(j < 13), z3.BoolVal(j >= 14 and j - 14 < nd), z3.IntVal(max(j - 14, 0)), f"decoy legend {j}") for j in range(14 + nd)] \
+            + [XLine(2000, vals=[SR(z3.RealVal(7 + c)) for c in range(1 + nd)])]
 
         def fake_open(p, mode="r", *a, **k):
             if "w" in mode or "a" in mode or p not in fs:
                 raise Unsupported(f"open({p!r}, {mode!r})")
             return FakeFile(fs[p])
         with bound(IO, open=fake_open, pd=PDModel(fs, bool), print=noprint):
+            try:
+                dr = IO.EnergyReader("decoy.xvg")
+                dr.load_energy()
+                dr.load_single_energy_column(TIME)
+            except Exception:  # noqa: BLE001 - the decoy's own failure is not the subject
+                pass
             rd = IO.EnergyReader(path_name)
             t = rd.load_energy()
             cols = list(t.columns)
@@ -468,6 +485,14 @@ def concrete_xvg_violations(h, at_lines, data):
         with open(fn, "w") as f:
             f.write(xvg_text(h, at_lines, data))
         cols, rows = xvg_expected(at_lines, data)
+        nd = (len(cols)) % 3             # the decoy file of the symbolic run, read first by another reader
+        dfn = os.path.join(d, "decoy.xvg")
+        with open(dfn, "w") as f:
+            f.write(xvg_text(13, [None] + [(j, f"decoy legend {14 + j}") for j in range(nd)], [[7.0 + c for c in range(1 + nd)]]))
+        try:
+            IO.EnergyReader(dfn).load_energy()
+        except Exception:  # noqa: BLE001
+            pass
         try:
             rd = IO.EnergyReader(fn)
             t = rd.load_energy()
